@@ -4,40 +4,66 @@ import (
 	"fmt"
 	"os"
 	"path/filepath"
-	"time"
 
-	"github.com/gnolang/gno/tm2/pkg/bft/privval"
-	"github.com/gnolang/gno/tm2/pkg/bft/privval/signer/local"
-	"github.com/gnolang/gno/tm2/pkg/bft/types"
+	auto "github.com/gnolang/gno/tm2/pkg/autofile"
+	walm "github.com/gnolang/gno/tm2/pkg/bft/wal"
+	"github.com/gnolang/gno/tm2/pkg/log"
+
+	c38 "verifharness/checks/c38"
 )
 
 func main() {
 	dir, _ := os.MkdirTemp("/verif/.work", "probe")
 	defer os.RemoveAll(dir)
-	sg, _ := local.LoadOrMakeLocalSigner(filepath.Join(dir, "key.json"))
-	st := filepath.Join(dir, "state.json")
-	pv, err := privval.NewPrivValidator(sg, st)
+	wal, err := walm.NewWAL(filepath.Join(dir, "wal"), 1<<20, auto.GroupHeadSizeLimit(60))
 	if err != nil {
 		panic(err)
 	}
-	b, _ := os.ReadFile(st)
-	fmt.Printf("%s\n", b)
-	ts := time.Unix(1700000000, 5).UTC()
-	v := &types.Vote{Type: types.PrecommitType, Height: 5, Round: 0, Timestamp: ts}
-	fmt.Println("sign 5/0/precommit:", pv.SignVote("c", v))
-	b, _ = os.ReadFile(st)
-	fmt.Printf("%s\n", b)
-	v1 := &types.Vote{Type: types.PrecommitType, Height: 6, Round: -1, Timestamp: ts, BlockID: types.BlockID{Hash: []byte("A")}}
-	fmt.Println("sign 6/-1/precommit:", pv.SignVote("c", v1))
-	v2 := &types.Vote{Type: types.PrecommitType, Height: 6, Round: -1, Timestamp: ts.Add(time.Second), BlockID: types.BlockID{Hash: []byte("A")}}
-	fmt.Println("re-sign 6/-1/precommit (new timestamp):", pv.SignVote("c", v2), "sig returned:", len(v2.Signature))
-	b, _ = os.ReadFile(st)
-	fmt.Printf("on disk: %s\n", b)
-	// restart
-	pv, err = privval.NewPrivValidator(sg, st)
-	if err != nil {
-		panic(err)
+	wal.SetLogger(log.NewNoopLogger())
+	wal.Start() // writes #0
+	for i := 1; i <= 6; i++ {
+		wal.Write(c38.RoundStepMsg{Height: 1, Round: i, Step: 1})
 	}
-	v3 := &types.Vote{Type: types.PrevoteType, Height: 5, Round: 1, Timestamp: ts}
-	fmt.Println("after restart sign 5/1/prevote:", pv.SignVote("c", v3), "sig returned:", len(v3.Signature))
+	wal.WriteMetaSync(walm.MetaMessage{Height: 1})
+	wal.Write(c38.RoundStepMsg{Height: 2, Round: 0, Step: 1})
+	wal.FlushAndSync()
+	ents, _ := os.ReadDir(dir)
+	for _, e := range ents {
+		b, _ := os.ReadFile(filepath.Join(dir, e.Name()))
+		n := 0
+		meta := ""
+		for _, ln := range splitLines(b) {
+			n++
+			if len(ln) > 0 && ln[0] == '#' {
+				meta += " " + ln
+			}
+		}
+		fmt.Printf("%s: %d lines%s\n", e.Name(), n, meta)
+	}
+	for _, h := range []int64{1, 0, 2} {
+		func() {
+			defer func() {
+				if r := recover(); r != nil {
+					fmt.Println("SearchForHeight", h, "PANIC:", r)
+				}
+			}()
+			_, found, err := wal.SearchForHeight(h, nil)
+			fmt.Println("SearchForHeight", h, "found", found, "err", err)
+		}()
+	}
+	wal.Stop()
+}
+
+func splitLines(b []byte) []string {
+	var out []string
+	cur := ""
+	for _, c := range b {
+		if c == '\n' {
+			out = append(out, cur)
+			cur = ""
+		} else {
+			cur += string(c)
+		}
+	}
+	return out
 }
